@@ -88,7 +88,8 @@ func GenSupported(t *SType) error {
 		for _, f := range t.Fields {
 			// genStruct.go:29,39,86: the field name is a Go identifier (lower: struct field; Title-cased: accessor and
 			// constants) and is pasted unescaped into Go string literals (:101, genStructReprMap.go:87 for the rename)
-			if !goIdent(f.Name) || goKeyword[f.Name] || seen[strings.Title(f.Name)] { //lint:ignore SA1019 mirrors adjunctCfg.go:72
+			// (a Go keyword is usable: genEmitOne overrides its lower-case symbol, the documented use of FieldSymbolLowerOverrides)
+			if !goIdent(f.Name) || (goKeyword[f.Name] && !goKeywords[f.Name]) || seen[strings.Title(f.Name)] { //lint:ignore SA1019 mirrors adjunctCfg.go:72
 				return fmt.Errorf("struct: field name %q is not usable as a Go identifier (adjunctCfg.go:61-73)", f.Name)
 			}
 			seen[strings.Title(f.Name)] = true //lint:ignore SA1019 mirrors adjunctCfg.go:72
@@ -427,15 +428,24 @@ func GenLock() (unlock func(), err error) {
 	return func() { _ = syscall.Flock(int(f.Fd()), syscall.LOCK_UN); f.Close() }, nil
 }
 
+var goKeywords = map[string]bool{"type": true, "range": true, "func": true, "go": true, "map": false}
+
 func genEmitOne(g *GenTS) (err error) {
 	pdir := filepath.Join(GenDir(), g.PkgName())
 	if err := os.MkdirAll(pdir, 0o755); err != nil {
 		return err
 	}
-	adj := &gengo.AdjunctCfg{CfgUnionMemlayout: map[schema.TypeName]string{}}
+	adj := &gengo.AdjunctCfg{CfgUnionMemlayout: map[schema.TypeName]string{}, FieldSymbolLowerOverrides: map[gengo.FieldTuple]string{}}
 	for _, t := range g.Types {
 		if t.K == "union" {
 			adj.CfgUnionMemlayout[t.Name] = g.Layout
+		}
+		// a field named like a Go keyword needs its lower-case symbol overridden (the documented use of the option): the
+		// configuration therefore differs from one Generate call of this process to the next
+		for _, f := range t.Fields {
+			if goKeywords[f.Name] {
+				adj.FieldSymbolLowerOverrides[gengo.FieldTuple{TypeName: schema.TypeName(t.Name), FieldName: f.Name}] = f.Name + "_"
+			}
 		}
 	}
 	defer func() {
